@@ -94,6 +94,16 @@ def rule_cell(text, ctx, where):
             n += 1
         text, k = re.subn(r"\b(self|p)\." + re.escape(f) + r"\.get\(\)", r"\1." + f, text)
         n += k
+        # constructor site:  `f: Cell::new(X)`  ->  `f: X`
+        while True:
+            m = mask(text)
+            mt = re.search(r"\b" + re.escape(f) + r"\s*:\s*Cell::new\(", m)
+            if not mt:
+                break
+            b = mt.end() - 1
+            e = match_delim(m, b)
+            text = text[:mt.start()] + f"{f}: " + text[b + 1:e] + text[e + 1:]
+            n += 1
     return text, n
 
 
